@@ -6,7 +6,7 @@
 From Coq Require Import ZArith List Bool.
 From AQ Require Import model.CMemBase gen.CMem model.CMemSpec proofs.CMemProofs proofs.CMemCalls.
 From AQ Require Import lib.Base gen.C13Consts model.Builder model.CCallBase gen.CCallers model.CCallSpec
-  proofs.CCallersP proofs.CCallersBuilder.
+  proofs.CCallersP proofs.BuilderProofs proofs.CCallersBuilder.
 Local Open Scope Z_scope.
 
 (* Every Buffer method sequence with well-typed arguments, from any state satisfying
@@ -130,6 +130,17 @@ Theorem library_seal_calls_meet_contract_builder : forall c s p s',
                      (p_type p =? PT_ONE_RTT) (remaining_flight_space s) (snd (bsite c s p) + 16))).
 Proof. exact builder_seal_calls_in_contract. Qed.
 Print Assumptions library_seal_calls_meet_contract_builder.
+
+(* ... in every state the builder reaches from its initial state, for ANY op sequence (API misuse included). *)
+Theorem library_seal_calls_meet_contract_reachable : forall c pn ops p s',
+  wf_cfg c -> c_mds c <= 1500 ->
+  let s := fst (run c (init_st c pn) ops) in
+  b_cur s = Some p -> breach c s p = true -> end_packet c s p = (ODone, s') ->
+  Forall (ncall_in_contract end_packet_pnl0)
+    (snd (seal_chain (b_tell s) (p_start p) (p_hdr p) (c_client c) (p_ackel p) (p_type p =? PT_INITIAL) (b_dgpad s)
+                     (p_type p =? PT_ONE_RTT) (remaining_flight_space s) (snd (bsite c s p) + 16))).
+Proof. exact reachable_seal_calls_in_contract. Qed.
+Print Assumptions library_seal_calls_meet_contract_reachable.
 
 (* C13's builder model and the translation agree on the size handed to encrypt_packet. *)
 Theorem builder_model_seals_translated_size : forall c s p m,
